@@ -40,14 +40,17 @@ def finding_matches(f: Dict[str, Any], v: Dict[str, Any]) -> bool:
 def build_tasks(pid: str, tier: str, seed: int, budget_s: float, workers: int) -> List[Dict[str, Any]]:
     prop = props.get(pid)
     tasks: List[Dict[str, Any]] = []
+    only = [x for x in os.environ.get("VERIF_ENVS", "").split(",") if x]
     for name in prop.env_names():
+        if only and name not in only:
+            continue
         ad = envs.get(name)
         for cfg in prop.select_configs(ad, tier):
             for shard in range(prop.shards(ad, cfg, tier)):
                 t = {"prop": pid, "env": name, "cfg": cfg, "shard": shard, "seed": seed, "tier": tier,
                      "cost": prop.cost(ad, cfg)}
                 if tier == "quick":
-                    t["runs"] = prop.runs_for(ad, cfg, tier)
+                    t["runs"] = int(os.environ.get("VERIF_RUNS", "0") or 0) or prop.runs_for(ad, cfg, tier)
                     t["hard_timeout"] = 600
                 tasks.append(t)
     if tier == "thorough":
